@@ -32,17 +32,24 @@ class Tab(Problem):
     name = "tab"
 
     def __init__(self, S, A, E, ds=1, da=1, de=1, offset=0, prob_array=False,
-                 T=None, R=None, P=None, V0=None, PI0=None):
+                 T=None, R=None, P=None, V0=None, PI0=None, scale=None, v0_int=False):
+        """scale: state vectors are multiples of `scale` (a float state space, e.g. stock in half units);
+        v0_int: initial_value returns an integer-typed estimate."""
         self.S, self.A, self.E = S, A, E
+        self.scale = scale
         self.ds, self.da, self.de, self.offset, self.prob_array = ds, da, de, offset, prob_array
         self._ss, self._sstr = _space(S, ds, offset)
+        if scale is not None:
+            self._ss = self._ss.astype(np.float64) * scale
         self._as, self._astr = _space(A, da)
         self._es, self._estr = _space(E, de)
         Tidx = np.zeros((S, A, E), dtype=np.int64) if T is None else np.asarray(T, dtype=np.int64)
-        self.T = jnp.asarray(self._ss[Tidx], dtype=jnp.int32)  # successor vectors
+        self.T = jnp.asarray(self._ss[Tidx], dtype=jnp.int32 if scale is None else jnp.float64)  # successor vectors
         self.R = jnp.zeros((S, A, E)) if R is None else jnp.asarray(R, dtype=jnp.float64)
         self.P = jnp.ones((S, A, E)) / E if P is None else jnp.asarray(P, dtype=jnp.float64)
         self.V0 = jnp.zeros((S,)) if V0 is None else jnp.asarray(V0, dtype=jnp.float64)
+        if v0_int:
+            self.V0 = jnp.asarray(np.round(np.asarray(self.V0)), dtype=jnp.int32)
         self.PI0 = None if PI0 is None else jnp.asarray(PI0, dtype=jnp.int32)
         super().__init__()
 
@@ -63,6 +70,8 @@ class Tab(Problem):
         return jnp.clip(r, 0, n - 1)
 
     def state_to_index(self, s):
+        if self.scale is not None:
+            s = jnp.round(s / self.scale).astype(jnp.int32)
         return self._rank(s, self._sstr, self.offset, self.S)
 
     def _a(self, a):
